@@ -23,6 +23,7 @@ func c20Append() []explore.Event {
 		ev("fault", 0, "CreateMessage:fail-size"),
 		ev("append", 0, "INBOX", "m1"),
 		ev("append", 0, "INBOX", "m2"),
+		ev("append", 0, "INBOX", "u1"),
 		ev("append", 0, "other", "m1"),
 		ev("append", 0, "Recovered Messages", "m3"),
 		ev("append", 0, "recovered messages", "m3"),
